@@ -22,6 +22,7 @@ RULES = [
     Rule('C13.R3', 'copy-out frame count and destination offset have the required form; helpers write at i*sampleOffset', 8),
     Rule('C13.R4', 'format dispatch: container size == destination element size, selected converter applied, unsupported refused, converter ranges', 20),
     Rule('C13.R5', 'returned count equals the accumulated copied samples', 2),
+    Rule('C13.R6', 'frames generated and copied per period never exceed the frames left in the request', 4),
 ]
 EXPLANATION = ('CFG dominance for the argument screening, interval abstract interpretation (E2) for the period clamp and the converter value ranges, and AST '
                'shape agreement for the copy-out arithmetic and the (sample type, container) dispatch table of SendStereoAudio (template arguments resolved '
@@ -292,4 +293,74 @@ def analyse(facts, tier):
         cf = facts.fn(cname)
         ok = any(short(callee_name(x)) == 'opn2_cvtS16' for b, ex, loc in cf.cfg.exprs() for x in calls_in(ex))
         obls.append(Obl('C13.R4', cname, 'built on the saturating S16 conversion', cf.loc, 'discharged' if ok else 'finding', why='calls opn2_cvtS16' if ok else 'does not saturate through opn2_cvtS16'))
+    # every unsigned converter is its signed sibling shifted by half the range (so S and U agree sample by sample, rounding included)
+    for bits in (8, 16, 24, 32):
+        cf = facts.fn('opn2_cvtU%d' % bits)
+        okk, why = False, 'return expression is not opn2_cvtS%d(x) - INT%d_MIN' % (bits, bits)
+        for b, j, st in cf.cfg.returns():
+            e = strip(st['s'].get('e'))
+            if e is not None and e.get('k') == 'BinaryOperator' and e['op'] == '-':
+                l, r = strip(e['l']), e['r']
+                c = const_of(r)
+                if short(callee_name(l)) == 'opn2_cvtS%d' % bits and c is not None and (c == -(1 << (bits - 1)) or c == (1 << (bits - 1)) and bits == 32):
+                    okk, why = True, 'opn2_cvtS%d(x) - (%d)' % (bits, c)
+        status = 'discharged' if okk else 'finding'
+        if not okk:
+            # another spelling of the same function?  evaluate both siblings on representatives of every rounding class
+            sf = facts.fn('opn2_cvtS%d' % bits)
+            bad = None
+            for x0 in (-70000, -32769, -32768, -32767, -513, -512, -511, -257, -256, -255, -129, -128, -127, -7, -1, 0, 1, 7, 127, 128, 255, 256, 257, 32766, 32767, 32768, 70000):
+                vals = []
+                for f_ in (cf, sf):
+                    eng = Engine2(facts, {}, {}, {})
+                    s0 = St(); s0.env[('v', f_.params[0]['id'])] = V(x0, x0)
+                    eng.run(f_, s0, record=False)
+                    rv = None
+                    for v in eng.returns:
+                        rv = v if rv is None else rv.join(v)
+                    vals.append(rv)
+                u, sg = vals
+                if u is None or sg is None or not u.is_point() or not sg.is_point() or (u.lo - sg.lo) % (1 << 32) != (1 << (bits - 1)) % (1 << 32):
+                    bad = (x0, u, sg)
+                    break
+            if bad is None:
+                status, why = 'assumed', 'not of the form S(x) - INT_MIN, but agrees with the signed sibling on representatives of every rounding class'
+            else:
+                why = 'opn2_cvtU%d(%d) = %s while opn2_cvtS%d(%d) = %s: the unsigned format is no longer the signed one shifted by half the range' % (bits, bad[0], bad[1], bits, bad[0], bad[2])
+        obls.append(Obl('C13.R4', cf.name, 'unsigned = signed sibling - INT_MIN', cf.loc, status, why=why))
+    obls += r6(facts)
     return obls
+
+
+
+def r6(facts):
+    """symbolic bound against `leftSamples = left / 2` (vf/bufsize.py): the frame count handed to the chips and to the copy-out is
+    <= leftSamples on every path, so `left` never goes negative and the reported total never exceeds the request"""
+    from ..bufsize import BufSize
+    out = []
+    for name in ('opn2_playFormat', 'opn2_generateFormat'):
+        fn = facts.fn(name, required=False)
+        if fn is None:
+            continue
+        ls = None
+        for b, j, st in fn.cfg.stmts():
+            if st['s'].get('k') == 'DeclStmt':
+                for v in st['s']['decls']:
+                    i0 = strip(v.get('init')) if v.get('init') is not None else None
+                    if i0 is not None and i0.get('k') == 'BinaryOperator' and i0['op'] == '/' and const_of(i0['r']) == 2 and short(strip(i0['l']).get('n', '')) == 'left':
+                        ls = v
+        if ls is None:
+            out.append(Obl('C13.R6', name, 'frames left in the request (left / 2)', fn.loc, 'finding',
+                           why='the per-period frame count is never compared with the frames left in the request: the last period of a call can produce more than was asked for'))
+            continue
+        bs = BufSize(fn, [], ls['id'])
+        bs.probes = {'generate32': 1, 'generateAndMix32': 1, 'SendStereoAudio': 1}
+        bs.run()
+        if not bs.probe_results:
+            raise build.AnalysisBroken('C13.R6: generate / copy-out calls not found in %s' % name)
+        for (ln, txt), b in sorted(bs.probe_results.items()):
+            ok = b is not None and b[0] == 'rel' and b[1] <= 0
+            out.append(Obl('C13.R6', name, txt, '%s:%s' % (fn.file, ln), 'discharged' if ok else 'finding',
+                           why='frame count <= %s on every path' % ls['n'] if ok else
+                           'the frame count is not bounded by the frames left in the request (%s): the call reports / produces more samples than requested' % (b,)))
+    return out
